@@ -17,7 +17,10 @@
 (*  kind "pp"    rp = parse_expr(str(e)) for expressions of ALL forms                                    *)
 (*      PrintParseIdentity                                                                               *)
 (*  Events outside the exactly evaluable fragment are consumed with nt = FALSE for the value clauses.     *)
-(*  dv (informational): a recorded example step whose re-executed result differs from the stored one.    *)
+(*  Steps of a HISTORY (several rule applications in one shared context, fields fam / k / prefix) and steps that use    *)
+(*  scratch identities are rule events like the others: conds = the conditions STATED for the whole history.         *)
+(*  dv (informational): a recorded example step whose re-executed result differs from the stored one; a step that    *)
+(*  changed the conditions held by the shared context (cb / ca).                                                   *)
 EXTENDS C19_Eval, TraceLib
 
 PPFails(e, rpo, rp) ==
@@ -44,7 +47,8 @@ Verdict3(ev) ==
               V((IF sv.fails THEN {IF IsDerivStep(ev) THEN "DerivCorrect" ELSE "SameValue"} ELSE {})
                 \cup (IF pp THEN {"PrintParseIdentity"} ELSE {}),
                 sv.cmp,
-                "rec" \in DOMAIN ev /\ ~SameUpToNumerals(ev.rec, ev.r).same)
+                \/ ("rec" \in DOMAIN ev /\ ~SameUpToNumerals(ev.rec, ev.r).same)
+                \/ ("cb" \in DOMAIN ev /\ "ca" \in DOMAIN ev /\ ev.cb # ev.ca))         \* the step changed the conditions of the shared context
     [] ev.kind = "norm" ->
          IF ev.outcome # "ok" THEN V({}, FALSE, FALSE)
          ELSE LET sv == SameValue(ev.e, ev.n1, ev.conds) IN
